@@ -1,15 +1,19 @@
-\* exhaustive design check of C15: 3 threads, 2 types, 2 values, 2 handle
-\* variables per thread, vacuum enabled at every step, no codec ops
+\* exhaustive design check of C15: 2 threads, 2 types, 2 values, at most 2
+\* handles per thread, vacuum enabled at every step (codec: InternerCodec.cfg;
+\* 3 threads: Interner3.cfg, Interner3h1.cfg, InternerFull3.cfg)
 SPECIFICATION Spec
 CONSTANTS
-  Threads = {1, 2, 3}
-  Types = {1, 2}
-  Values = {1, 2}
+  Threads = {t1, t2}
+  Types = {ty1, ty2}
+  Values = {v1, v2}
+  Allocs = {a1, a2, a3, a4}
+  IntAllocs = FALSE
   MaxHandles = 2
-  NShards = 1
-  NAllocs = 5
+  PerValueShard = FALSE
   Mutation = "none"
   VacuumOn = TRUE
   CodecSeqs <- NoCodec
-INVARIANTS TypeOK Canonical OneLivePerValue SlotTracksLive SlotContent StrongConsistent DecodeOK LocksOK
+  CodecThreads <- NoThreads
+SYMMETRY SymA
+INVARIANTS TypeOK Canonical OneLivePerValue SlotTracksLive SlotContent StrongConsistent NoLeak DecodeOK
 CHECK_DEADLOCK FALSE
